@@ -114,6 +114,12 @@ class World:
             if r is not NotImplemented: return r
         if isinstance(container, (tuple, list, set, frozenset, dict)):
             return any(x is i or (is_plain(i) and is_plain(x) and i == x) for i in container)
+        import collections.abc as _abc
+        if is_plain(x) and isinstance(container, (_abc.Set, _abc.Sequence, _abc.Mapping)):
+            # concrete read-only repo container (qsetf, MapProxy, ...) holding plain items: executed natively
+            self.used_native.add(f'{type(container).__name__}.__contains__')
+            try: return x in container
+            except TypeError as e: raise PyExc(TypeError, e.args)
         raise Outside(f'native contains on {type(container).__name__}')
     def native_getattr(self, it, obj, name):
         for h in self.attr_hooks:
